@@ -61,7 +61,7 @@ def replay_member(shape, moore, plus_one, values, objective='streett', resolve=F
     import omega.games.gr1 as gr1
     from vlib import bdd2smt, family, xplay
     aut, params = family.build(shape, moore, plus_one)
-    concrete_member(aut, {p: bool(values[p]) for p in params})
+    concrete_member(aut, {p: values[p] for p in params})
     def solve():
         if objective == 'streett':
             return gr1.solve_streett_game(aut)[0]
@@ -84,7 +84,9 @@ def replay_member(shape, moore, plus_one, values, objective='streett', resolve=F
 
 
 def _describe(values, params):
-    return ''.join('1' if values[p] else '0' for p in params)
+    if all(isinstance(values[p], bool) for p in params):
+        return ''.join('1' if values[p] else '0' for p in params)
+    return ','.join(f'{p}={values[p]}' for p in params)
 
 
 def family_region(shape, moore, plus_one, objective='streett', state_idx=None, resolve=False):
@@ -134,7 +136,7 @@ def family_region(shape, moore, plus_one, objective='streett', state_idx=None, r
     nontrivial = (r == 'sat')
     if nontrivial:
         m = sol.model()
-        vals = family.model_params(m, params, exp.bits)
+        vals = family.model_params(m, params, exp.bits, aut.vars)
         sample['witness_member'] = _describe(vals, params)
         sample['witness_region'] = [ex.state_values(s) for s in ex.S
                                     if z3.is_true(m.eval(zt[s], model_completion=True))]
@@ -159,7 +161,7 @@ def family_region(shape, moore, plus_one, objective='streett', state_idx=None, r
                                 detail=f'solver answered {r}', sample=sample))
             continue
         m = sol.model()
-        vals = family.model_params(m, params, exp.bits)
+        vals = family.model_params(m, params, exp.bits, aut.vars)
         diffs = replay_member(shape, moore, plus_one, vals, objective, resolve)
         if diffs:
             st, got, want = diffs[0]
@@ -250,14 +252,16 @@ def replay(payload):
 def shapes_for(tier, objective='streett'):
     # (shape, back end, split per explicit state into separate tasks)
     if tier == 'quick':
-        r = [('B11a', 'cudd', 4), ('S11', 'cudd', 0), ('S11h2', 'cudd', 0), ('S11g2', 'cudd', 0), ('B02', 'cudd', 0), ('S11', 'autoref', 0)]
+        r = [('B11a', 'cudd', 4), ('S11', 'cudd', 0), ('S11h2', 'cudd', 0), ('S11g2', 'cudd', 0), ('B02', 'cudd', 0),
+             ('T11b', 'cudd', 0), ('S11', 'autoref', 0)]
         if objective == 'streett':
             r.append(('B02', 'autoref', 0))
         return r
-    return [('B11a', 'cudd', 4), ('S11h2', 'cudd', 0), ('S11g2', 'cudd', 0), ('B11b', 'cudd', 4), ('B11c21', 'cudd', 4), ('B11c12', 'cudd', 4),
-            ('S11', 'cudd', 0), ('B02', 'cudd', 0), ('I11a', 'cudd', 8), ('I11n', 'cudd', 8),
-            ('I11b', 'cudd', 8), ('B21', 'cudd', 8), ('B12', 'cudd', 8),
-            ('S11', 'autoref', 0), ('B02', 'autoref', 0), ('B11a', 'autoref', 4)]
+    # three-state-bit *table* families (I11a, I11n, I11b, B21, B12) do not finish inside CUDD's rename for the
+    # nested fixpoints (probed: single tasks beyond 6000 s); integers enter through the template families
+    return [('B11a', 'cudd', 4), ('S11h2', 'cudd', 0), ('S11g2', 'cudd', 0), ('B11b', 'cudd', 4), ('B11c21', 'cudd', 4),
+            ('B11c12', 'cudd', 4), ('S11', 'cudd', 0), ('B02', 'cudd', 0), ('T11b', 'cudd', 0), ('T11', 'cudd', 16),
+            ('S11', 'autoref', 0), ('B02', 'autoref', 0), ('T11b', 'autoref', 0), ('B11a', 'autoref', 4)]
 
 
 def run(tier, seed, t0, only=None, objective='streett', pid=PID):
